@@ -2,6 +2,7 @@ import KitProofs.Lemmas.LocksFifoMutex
 import KitProofs.Lemmas.LocksFifoMap
 import KitProofs.Lemmas.LocksCMap
 import KitProofs.Lemmas.LocksContext
+import KitProofs.Lemmas.LocksContextProgress
 import KitProofs.Lemmas.LocksOuterCancel
 import KitProofs.Lemmas.LocksOuterCancelSlot
 import KitModel.Generated.C13
@@ -259,6 +260,141 @@ theorem ctx_waiter_leaves (n : Nat) (s : Context.State) (_h : Reach Context.lts 
   · simp [Context.step, hpc, hd]
   · simp [Context.step]
   · simp
+
+/-- `ctx_waiter_leaves` for EVERY waiter at once (internal progress): from any state, for any
+duplicate-free list of callers that wait in `Lock/RLock` — before or after parking in the select —
+and whose contexts have ended, their own steps alone (the `ctx.Done()` case, then the error
+return) bring all of them back to idle, whatever the other callers do or hold; token, RWMutex and
+every other caller are untouched and the token queue only loses them. -/
+theorem ctx_all_waiters_leave (s : Context.State) (ws : List Tid) (hnd : ws.Nodup)
+    (hw : ∀ t ∈ ws, Context.waitingPc (s.pcs t) = true ∧ s.ctxDone t = true) :
+    ∃ s', Context.lts.run s (ws.flatMap Context.leaveLabels) = some s' ∧
+      (∀ t ∈ ws, s'.pcs t = .idle) ∧ (∀ u, u ∉ ws → s'.pcs u = s.pcs u) ∧
+      s'.tok = s.tok ∧ s'.w = s.w ∧ s'.rs = s.rs ∧
+      (∀ u, u ∈ s'.sendq → u ∈ s.sendq) ∧ (∀ u, u ∈ s.sendq → u ∉ ws → u ∈ s'.sendq) := by
+  obtain ⟨s', h0, h1, h2, h3, h4, h5, _, h7, h8⟩ := Context.all_waiters_leave ws s hnd hw
+  exact ⟨s', h0, h1, h2, h3, h4, h5, h7, h8⟩
+
+/-- What the code guarantees about the order of grants (given the trusted FIFO `sendq` of the token
+channel): in one step the token queue only grows at the tail (a caller that found the token taken
+and its context live), loses a waiter whose context ended, or loses its HEAD, which then has the
+token. -/
+theorem ctx_queue_fifo (n : Nat) (s s' : Context.State) (a : Context.L)
+    (h : Reach Context.lts (Context.init n) s) (hs : Context.lts.step s a = some s') :
+    Context.QStep s s' :=
+  Context.queue_discipline s a s' (Context.inv_reach n s h) hs
+
+/-- No barging: the token is taken directly at the `select` only when nobody is parked (a free
+token implies an empty queue: the release hands the slot to the head waiter in the same step). -/
+theorem ctx_no_barging (n : Nat) (s : Context.State) (h : Reach Context.lts (Context.init n) s)
+    (htok : s.tok = none) : s.sendq = [] :=
+  (Context.inv_reach n s h).qe htok
+
+/-- Bounded overtaking: the position of a parked waiter never increases and every hand-off of the
+token moves it one place forward. Hence a parked waiter at position `i` whose context does not end
+has the token after `i + 1` hand-offs — provided the holders release, which is their callers'
+business, not the lock's. -/
+theorem ctx_position_never_increases (n : Nat) (s s' : Context.State) (a : Context.L)
+    (h : Reach Context.lts (Context.init n) s) (hs : Context.lts.step s a = some s')
+    (t : Tid) (ht : t ∈ s.sendq) (ht' : t ∈ s'.sendq) :
+    s'.sendq.idxOf t ≤ s.sendq.idxOf t ∧
+    (∀ hd rest, s.sendq = hd :: rest → s'.sendq = rest → s'.sendq.idxOf t + 1 = s.sendq.idxOf t) :=
+  Context.position_never_increases s a s' (Context.inv_reach n s h) hs t ht ht'
+
+theorem run3 {σ α : Type} (M : LTS σ α) {s s1 s2 s3 : σ} {a b c : α} (h1 : M.step s a = some s1)
+    (h2 : M.step s1 b = some s2) (h3 : M.step s2 c = some s3) : M.run s [a, b, c] = some s3 := by
+  simp [LTS.run, h1, h2, h3]
+
+/-- `Unlock/RUnlock` never blocks, and it passes the token to the longest-waiting parked caller:
+from a reachable state in which `t` has called it, `t`'s own three steps end in idle; if the
+queue was `hd :: rest`, `hd` has the token afterwards, otherwise the token is free. -/
+theorem ctx_unlock_hands_over (n : Nat) (s : Context.State) (h : Reach Context.lts (Context.init n) s)
+    (t : Tid) (md : Context.Mode) (hpc : s.pcs t = .ulCalled md) :
+    ∃ s', Context.lts.run s [.tau t 0, .tau t 0, .ret t false] = some s' ∧ s'.pcs t = .idle ∧
+      (s.sendq = [] → s'.tok = none) ∧
+      (∀ hd rest, s.sendq = hd :: rest → s'.tok = some hd ∧ (s'.pcs hd).hasTok = true ∧ s'.sendq = rest) := by
+  have inv := Context.inv_reach n s h
+  have hu : s.tok = some t := (inv.tokI t).mpr (by simp [hpc, Context.PC.hasTok])
+  -- first step: the RWMutex is released
+  have h1 : ∃ s1, Context.lts.step s (.tau t 0) = some s1 ∧ s1.pcs = upd s.pcs t (.ulRw md) ∧ s1.tok = s.tok ∧
+      s1.sendq = s.sendq := by
+    cases md with
+    | w =>
+      have hw : s.w = some t := (inv.wI t).mpr (by simp [hpc, Context.PC.wOwn])
+      exact ⟨{ s with w := none, pcs := upd s.pcs t (.ulRw .w) },
+        by simp [Context.lts, Context.step, hpc, hw], rfl, rfl, rfl⟩
+    | r =>
+      have hr : t ∈ s.rs := (inv.rI t).mpr (by simp [hpc, Context.PC.rOwn])
+      cases hrs : s.rs with
+      | nil => rw [hrs] at hr; simp at hr
+      | cons x xs =>
+        exact ⟨{ s with rs := if t ∈ s.rs then s.rs.erase t else xs, pcs := upd s.pcs t (.ulRw .r) },
+          by simp [Context.lts, Context.step, hpc, hrs], rfl, rfl, rfl⟩
+  obtain ⟨s1, hs1, hp1, ht1, hq1⟩ := h1
+  have hpc1 : s1.pcs t = .ulRw md := by rw [hp1]; simp
+  have htk1 : s1.tok = some t := by rw [ht1, hu]
+  cases hq : s.sendq with
+  | nil =>
+    have hs2 : Context.lts.step s1 (.tau t 0) = some { s1 with tok := none, pcs := upd s1.pcs t .ulDone } := by
+      simp [Context.lts, Context.step, hpc1, htk1, hq1, hq]
+    have hs3 : Context.lts.step { s1 with tok := none, pcs := upd s1.pcs t .ulDone } (.ret t false) =
+        some { s1 with tok := none, pcs := upd (upd s1.pcs t .ulDone) t .idle } := by
+      simp [Context.lts, Context.step]
+    refine ⟨_, run3 _ hs1 hs2 hs3, by simp, fun _ => rfl, ?_⟩
+    intro hd rest e; simp at e
+  | cons hd rest =>
+    have hqd : (s.pcs hd).isQueued = true := (inv.qI hd).mp (by simp [hq])
+    have hne : hd ≠ t := by
+      intro e; subst e; simp [hpc, Context.PC.isQueued] at hqd
+    have hpd : ∃ md', s1.pcs hd = .queued md' := by
+      rw [hp1]; simp only [upd_apply, if_neg hne]
+      generalize s.pcs hd = pc at hqd
+      cases pc <;> simp [Context.PC.isQueued] at hqd
+      exact ⟨_, rfl⟩
+    obtain ⟨md', hmd'⟩ := hpd
+    have hs2 : Context.lts.step s1 (.tau t 0) =
+        some { s1 with tok := some hd, sendq := rest, pcs := upd (upd s1.pcs t .ulDone) hd (.haveTok md') } := by
+      simp [Context.lts, Context.step, hpc1, htk1, hq1, hq, hmd']
+    have hs3 : Context.lts.step
+          { s1 with tok := some hd, sendq := rest, pcs := upd (upd s1.pcs t .ulDone) hd (.haveTok md') }
+          (.ret t false) =
+        some { s1 with tok := some hd, sendq := rest,
+                       pcs := upd (upd (upd s1.pcs t .ulDone) hd (.haveTok md')) t .idle } := by
+      simp [Context.lts, Context.step, upd, hne.symm]
+    refine ⟨_, run3 _ hs1 hs2 hs3, by simp, ?_, ?_⟩
+    · intro e; simp at e
+    · intro hd' rest' e
+      simp at e
+      obtain ⟨rfl, rfl⟩ := e
+      refine ⟨rfl, ?_, rfl⟩
+      simp [upd, hne, Context.PC.hasTok]
+
+/-- A caller at the `select` that finds the token free acquires the lock by its own steps (the
+inner RWMutex is never contended). -/
+theorem ctx_granted_when_token_free (n : Nat) (s : Context.State) (h : Reach Context.lts (Context.init n) s)
+    (t : Tid) (md : Context.Mode) (hpc : s.pcs t = .called md) (htok : s.tok = none) :
+    ∃ s', Context.lts.run s [.tau t 1, .tau t 0, .ret t false] = some s' ∧ s'.pcs t = .holding md := by
+  let s1 : Context.State := { s with tok := some t, pcs := upd s.pcs t (.haveTok md) }
+  have hs1 : Context.lts.step s (.tau t 1) = some s1 := by
+    simp [Context.lts, Context.step, hpc, htok, s1]
+  have hr1 : Reach Context.lts (Context.init n) s1 := Reach.next h hs1
+  have hp1 : s1.pcs t = .haveTok md := by simp [s1]
+  have hfree := context_rwmutex_uncontended n s1 hr1 t md hp1
+  cases md with
+  | w =>
+    have hs2 : Context.lts.step s1 (.tau t 0) = some { s1 with w := some t, pcs := upd s1.pcs t (.granted .w) } := by
+      simp [Context.lts, Context.step, hp1, hfree.1, hfree.2]
+    have hs3 : Context.lts.step { s1 with w := some t, pcs := upd s1.pcs t (.granted .w) } (.ret t false) =
+        some { s1 with w := some t, pcs := upd (upd s1.pcs t (.granted .w)) t (.holding .w) } := by
+      simp [Context.lts, Context.step]
+    exact ⟨_, run3 _ hs1 hs2 hs3, by simp⟩
+  | r =>
+    have hs2 : Context.lts.step s1 (.tau t 0) = some { s1 with rs := t :: s1.rs, pcs := upd s1.pcs t (.granted .r) } := by
+      simp [Context.lts, Context.step, hp1, hfree.1]
+    have hs3 : Context.lts.step { s1 with rs := t :: s1.rs, pcs := upd s1.pcs t (.granted .r) } (.ret t false) =
+        some { s1 with rs := t :: s1.rs, pcs := upd (upd s1.pcs t (.granted .r)) t (.holding .r) } := by
+      simp [Context.lts, Context.step]
+    exact ⟨_, run3 _ hs1 hs2 hs3, by simp⟩
 
 /-- An acquisition that reports an error holds nothing: neither the token nor the RWMutex in any
 mode, and it changed none of them. -/
